@@ -42,7 +42,10 @@ def _worker(job, partial_path=None):
         early_samples = []
         if kind != "canary" and hasattr(c, "samples"):
             for inputs in c.samples(tier):
-                early_samples.append(c.replay_custom(inputs) if hasattr(c, "replay_custom") else replay_inputs(c, inputs))
+                try:
+                    early_samples.append(c.replay_custom(inputs) if hasattr(c, "replay_custom") else replay_inputs(c, inputs))
+                except Exception:   # noqa  (a sample that cannot be evaluated is reported as such; the verification still runs)
+                    early_samples.append(dict(inputs={}, failed=[], pre_ok=False, outcome=None, error="sample raised: " + traceback.format_exc()[-800:]))
             if partial_path:
                 with open(partial_path, "w") as f:
                     json.dump(dict(label=getattr(c, "label", c.target), target=c.target, samples=early_samples), f, default=str)
